@@ -31,6 +31,7 @@ enum
     K_PREWAIT,
     K_LAZY,
     K_PRELOCK,
+    K_REWIND,    // channel_rewind (writer idle): a no-op unless every reader has consumed everything
     K_COUNT
 };
 
@@ -39,7 +40,7 @@ const VhKindSpec kKinds[K_COUNT] = {
     { "W_COMMIT", 4, 0, 0, 0, 0 },         { "W_ABORT", 2, 0, 0, 0, 0 },         { "R_READ", 10, 255, 65535, 0, 0 },
     { "R_MAP", 5, 255, 0, 0, 0 },          { "R_UNMAP", 5, 255, 65535, 0, 0 },   { "ACCEPT", 2, 1, 0, 0, 0 },
     { "STEP_WRITER", 2, 0, 0, 0, 0 },      { "PREWAIT", 1, 1, 0, 0, 0 },         { "LAZY", 1, 1, 0, 0, 0 },
-    { "PRELOCK", 1, 1, 0, 0, 0 },
+    { "PRELOCK", 1, 1, 0, 0, 0 },          { "REWIND", 2, 0, 0, 0, 0 },
 };
 
 enum
@@ -70,6 +71,9 @@ enum
     CL_JOIN_IN_PRELOCK,
     CL_DOUBLE_MAP,
     CL_DOUBLE_MAP_WRITER_ASLEEP,
+    CL_REWIND_DRAINED,
+    CL_REWIND_UNREAD,
+    CL_REWIND_EXACTLY_FULL,
 };
 
 const VhSpec kSpec = {
@@ -83,7 +87,8 @@ const VhSpec kSpec = {
       "write_ends_exactly_at_buffer_end", "write_ends_exactly_at_slowest_cursor", "tight_write", "readers_ge3",
       "reader_holds_mapping_across_write", "empty_read", "late_join", "null_because_refused", "consume_more_than_mapped",
       "wrap_without_readers", "reader_caught_up_at_wrap", "writer_paused_before_taking_the_lock",
-      "first_read_of_a_reader_while_writer_paused_before_lock", "map_while_mapped_refused", "map_while_mapped_with_writer_asleep", nullptr },
+      "first_read_of_a_reader_while_writer_paused_before_lock", "map_while_mapped_refused", "map_while_mapped_with_writer_asleep", "rewind_all_drained",
+      "rewind_with_unread_data", "rewind_with_queue_exactly_full", nullptr },
     { "C01 non-trivial: >=1 wrap-around while >=1 reader is registered AND (a partial consume, or >=2 readers with different cursors "
       "at a wrap, or an aborted write after a wrap); distinct = distinct decoded operation sequence",
       "C02 non-trivial: a write placed when free space < 2*n while a reader lags or holds a mapping, or a write ending exactly at the "
@@ -191,6 +196,8 @@ exec_main(void*)
             channel_read_unmap(&x.ch, &x.rd[x.xr].r, x.xk);
         else if (x.xop == 3)
             channel_accept_writes(&x.ch, x.xtf);
+        else if (x.xop == 4)
+            channel_rewind(&x.ch);
         x.xdone = true;
     }
 }
@@ -950,6 +957,27 @@ vh_run(const VhTok* tape, size_t n, VhReport* rep)
                 x.prelock = t.a & 1;
                 x.c.mix(0xa00 + x.prelock);
                 break;
+            case K_REWIND: {
+                // documented: "does nothing unless every registered reader has consumed everything; the
+                // caller ensures that no write is mapped or in progress".  The ledger needs no update:
+                // either nothing changes, or only consumed data is forgotten.
+                if (x.wstate != Ctx::W_IDLE)
+                    break;
+                bool drained = all_drained(x);
+                uint64_t min_need = ~0ull;
+                for (int i = 0; i < x.nreaders; ++i)
+                    min_need = std::min(min_need, need_of(x.rd[i]));
+                bool full = x.nreaders && G(x) - min_need == x.cap;
+                x.c.cls(drained ? CL_REWIND_DRAINED : CL_REWIND_UNREAD);
+                if (full) {
+                    x.c.cls(CL_REWIND_EXACTLY_FULL);
+                    x.c.nontrivial(0);
+                }
+                x.c.mix(0xb00);
+                x.c.trace("REWIND   (%s%s)", drained ? "every reader drained" : "unread data: must change nothing", full ? ", queue exactly full" : "");
+                exec_op(x, 4, 0, 0, 0);
+                break;
+            }
         }
         if (vsim::error() && !x.c.ended) {
             // the mutex / condition protocol was broken (unlock by a non-owner, wait without the lock):
